@@ -51,6 +51,16 @@ def Arg.queueSize : Arg → Nat
   | .bytes b => 4 + b.length
   | .byte _ => 1
 
+/-- the Go dynamic type of an argument, as the type switches of agent.go spell it -/
+def Arg.goType : Arg → String
+  | .int _ => "int" | .int64 _ => "int64" | .uint64 _ => "uint64" | .int32 _ => "int32" | .uint32 _ => "uint32"
+  | .int16 _ => "int16" | .uint16 _ => "uint16" | .str _ => "string" | .bytes _ => "[]byte" | .byte _ => "byte"
+  | .bool _ => "bool"
+
+/-- `len(job.Data[i].(T))` for the two variable-length types -/
+def Arg.goLen : Arg → Nat
+  | .str s => s.length | .bytes b => b.length | _ => 0
+
 structure Job where
   command : Nat
   requestId : Nat
